@@ -4,3 +4,9 @@ import GarbleVerif.Model.Reg
 import GarbleVerif.Proofs.SsaEval
 import GarbleVerif.Proofs.RegEval
 import GarbleVerif.Props.C16
+import GarbleVerif.Proofs.PushAndSound
+import GarbleVerif.Proofs.Compact
+import GarbleVerif.Proofs.Renumber
+import GarbleVerif.Proofs.Mark
+import GarbleVerif.Proofs.BuildSound
+import GarbleVerif.Props.C04
